@@ -138,6 +138,11 @@ def _worker_run(args):
                 acc.bump("shards_with_library_logging_at_" + acc.lib_log, 1)
         res = acc.result()
         res["shard_wall"] = round(REAL_TIME() - t0, 2)
+        from . import explore
+
+        res["deferred_divergences"] = list(explore.DEFERRED[:5])
+        res["deferred_divergences_n"] = len(explore.DEFERRED)
+        del explore.DEFERRED[:]
         return ("ok", res)
     except BaseException as exc:  # noqa
         return ("error", "%s\n%s" % (params, traceback.format_exc()))
@@ -319,6 +324,9 @@ def run_check(pid, tier, seed, jobs):
     for k, v in sorted(tot.extra.items()):
         if not k.startswith("_"):
             coverage.setdefault(k, v)
+    ndiv = sum(res.get("deferred_divergences_n", 0) for res in results)
+    if ndiv:
+        coverage["executions_that_depended_on_process_history"] = ndiv
     evidence = {
         "property_id": pid,
         "tier": tier,
@@ -376,6 +384,11 @@ def run_check(pid, tier, seed, jobs):
         return 1
     if regressions["failed"]:
         return 1
+    deferred = [d for res in results for d in res.get("deferred_divergences", [])]
+    if deferred:
+        # no violation anywhere in the run: the divergences are the harness' own
+        print("HARNESS-ERROR property=%s %d executions depended on what ran before them in the same process and nothing violated the oracle; first: %s" % (pid, sum(res.get("deferred_divergences_n", 0) for res in results), deferred[0]), file=sys.stderr)
+        return 2
     if tot.evaluations == 0:
         print("HARNESS-ERROR property=%s nothing explored" % pid, file=sys.stderr)
         return 2
